@@ -57,6 +57,17 @@ theorem successful_iff_no_failed_item (r : Report) :
     | false => rfl
     | true => exact absurd ((successful_iff_all_items_fine r).mp hs a ha) hna
 
+/-- **The flag has no memory.**  A reporting backend may walk the report in the middle of the run (the junit backend computes
+    the statistics of the whole report each time a saving strategy — at_each_test, at_each_log, every_Ns — makes it save;
+    every file backend serializes it): whatever the flag said about the report as it was THEN (`rMid`, all fine so far),
+    a result that is in the report at the END (`rFinal`) and is failed, skipped or unfinished makes the final flag false
+    and the exit code 1 — wherever it was added (a test of an existing suite, a suite teardown, a sub-suite). -/
+theorem later_failure_is_seen (rMid rFinal : Report) (_hmid : reportSuccessful rMid = true)
+    (a : AnyResult) (ha : a ∈ rawResults rFinal) (hbad : ¬ Fine a.result.status) :
+    reportSuccessful rFinal = false ∧ exitCode true rFinal = 1 := by
+  have h : reportSuccessful rFinal = false := (successful_iff_no_failed_item rFinal).mpr ⟨a, ha, hbad⟩
+  exact ⟨h, by simp [exitCode, h]⟩
+
 /-- **The exit code under `--exit-error-on-failure`** is 0 exactly when every test and every setup /
     teardown phase is passed or disabled. -/
 theorem exit_code_zero_iff (r : Report) :
